@@ -292,6 +292,47 @@ func genBatch(t *testing.T, tr *vhlib.Trace, r *vhlib.Rand, variant int) {
 		w.doMigrateCut(a, uint64(r.Intn(3)), 1+r.Intn(3))
 		w.doMigrate(a, 0, nil)
 		w.doRmVol(a, false)
+	case 5: // UNinterrupted expiry and prune loops that take several batches, over two volumes: what one batch
+		// did must not be accounted again by the next one (a volume may be touched by the first batch only)
+		total := 262 + r.Intn(80)
+		if r.Chance(1, 4) {
+			total += 256 // three batches
+		}
+		na := 30 + r.Intn(total-60)
+		a := w.doAddVol(false)
+		w.doAvail(a, true)
+		w.doGrow(a, uint64(na))
+		b := w.doAddVol(false)
+		w.doAvail(b, true)
+		w.doGrow(b, uint64(total-na+r.Intn(4)))
+		n := total - r.Intn(3)
+		for k := 0; k < n; k++ {
+			w.doStore(k, false)
+		}
+		for k := 0; k < n; k += 40 {
+			var l [][2]uint64
+			for j := k; j < k+40 && j < n; j++ {
+				l = append(l, [2]uint64{uint64(j), 10})
+			}
+			w.doTemps(l)
+		}
+		var chs []string
+		var v2 []int
+		for k := 0; k < 257+r.Intn(40); k++ {
+			chs = append(chs, fmt.Sprintf("a%d", r.Intn(n)))
+			v2 = append(v2, r.Intn(n))
+		}
+		w.doRevise1(1, chs)
+		w.doRevise2(1, v2)
+		w.doReject(30) // both contracts are unconfirmed: their sectors expire at any height
+		for _, which := range vhlib.Pick(r, []string{"expiret", "expire1", "expire2"}, []string{"expire2", "expiret", "expire1"}, []string{"expire1", "expire2", "expiret"}) {
+			w.doExpire(which, uint64(10+r.Intn(3)))
+		}
+		w.doTick()
+		w.doPrune()
+		w.doStore(n+1, false)
+		w.doRmVol(a, false)
+		w.doRmVol(b, true)
 	default: // expiry and prune loops over more than one batch, interrupted and retried
 		slots := 258 + r.Intn(60)
 		id := w.doAddVol(false)
@@ -1021,12 +1062,16 @@ func TestEngine(t *testing.T) {
 	if mode != "data" {
 		// batch boundaries: two scenarios per shard in the quick tier, all of them several times in the thorough tier
 		if cfg.Tier == "thorough" || cfg.Extra["big"] == "1" {
-			for k := 0; k < 10; k++ {
-				genBatch(t, tr, r, k%5)
+			for k := 0; k < 12; k++ {
+				genBatch(t, tr, r, k%6)
 			}
 		} else {
 			genBatch(t, tr, r, r.Intn(3))
 			genBatch(t, tr, r, 3+r.Intn(2)*r.Intn(2))
+			// every quick run: uninterrupted multi-batch loops in every other shard (shard = seed mod 100003)
+			if (cfg.Seed%100003)%2 == 0 {
+				genBatch(t, tr, r, 5)
+			}
 		}
 	}
 	if mode == "data" {
